@@ -281,6 +281,9 @@ def _vm_index_eval(expr, conds, x, n):
             if nme == "saturating_sub":
                 a, b = ev(e[2][0]), ev(e[2][1])
                 return max(0, a - b)
+            if nme in ("min", "max") and len(e[2]) == 2:
+                a, b = ev(e[2][0]), ev(e[2][1])
+                return min(a, b) if nme == "min" else max(a, b)
             raise ValueError("call %s" % nme)
         if k == "bin":
             a, b = ev(e[2]), ev(e[3])
